@@ -1113,7 +1113,9 @@ func (eval Evaluator) mulRelinThenAdd(op0 *rlwe.Ciphertext, op1 *rlwe.Element[ri
 		ratio := resScale.Div(opOut.Scale)
 		// Only scales up if int(ratio) >= 2
 		if ratio.Float64() >= 2.0 {
-			if err = eval.Mul(opOut, &ratio.Value, opOut); err != nil {
+			// By an INTEGER (as Add does when it matches scales): a non-integer *big.Float is a real
+			// constant for Mul, which scales it by q_level on top.
+			if err = eval.Mul(opOut, ratio.BigInt(), opOut); err != nil {
 				return fmt.Errorf("cannot MulRelinThenAdd: %w", err)
 			}
 			opOut.Scale = resScale
